@@ -298,3 +298,60 @@ def call_sequences(ctx, name, make_pool, calls, run, modules, depth, mutations=(
                        "call of a process")
     b.update(bounds or {})
     return ctx.histories(name, [()], execute, depth=depth, nodedup_depth=nodedup_depth, bounds=b)
+
+
+def revisit(ctx, name, setups, bounds=None):
+    """cache-capacity device: many DISTINCT calls, then every one of them again.
+
+    A bounded cache (the last 4 selections, an 8-row table of rotation terms, the previous matcher) is invisible to
+    short histories: it goes wrong when an entry is evicted and its key is met again.  For every set-up, ``calls`` (a
+    list of K >= 40 distinct, plain-literal call descriptions) are made in ONE process on ONE object - first all of
+    them in order, then all again in order, in reverse order and in an interleaved order - and every repetition must
+    give bit-for-bit what the same call gave the first time; the first-pass results of a few calls are also compared
+    with the call made as the only call of a pristine process.  K distinct keys in between exceed any cache of fewer
+    than K entries.
+
+    setups: {label: (make_object() -> obj or None, calls, run(obj, call) -> list of arrays)}"""
+    def child(label, reference_only=None):
+        make_object, calls, run = setups[label]
+        obj = make_object()
+
+        def run1(c):
+            # a call that is rejected must be rejected the same way every time
+            try:
+                return _snap(run(obj, c))
+            except Exception as e:
+                return ("raised", type(e).__name__, str(e)[:80])
+        if reference_only is not None:
+            return [run1(calls[i]) for i in reference_only][-1]
+        first = [run1(c) for c in calls]
+        K = len(calls)
+        orders = [list(range(K)), list(range(K))[::-1], [(7 * i + 3) % K for i in range(K)] if K % 7 else list(range(0, K, 2)) + list(range(1, K, 2))]
+        for o in orders:
+            for i in o:
+                again = run1(calls[i])
+                if again != first[i]:
+                    return ("revisit", i, K)
+        return ("ok", first)
+
+    def one(case, rec):
+        label = case
+        st, out = in_child(lambda: child(label))
+        if st != "ok":
+            return rec.fail(case, "%s: could not be executed: %s" % (label, out))
+        if out[0] == "revisit":
+            return rec.fail(case, "%s: call %r gives another result when it is made again after %d distinct other calls on the same object / in the same process "
+                                  "than it gave the first time" % (label, setups[label][1][out[1]], out[2] - 1))
+        first = out[1]
+        K = len(first)
+        for i in (0, K // 2, K - 1):
+            st, ref = in_child(lambda i=i: child(label, reference_only=[i]))
+            if st != "ok":
+                return rec.fail(case, "%s: reference run could not be executed: %s" % (label, ref))
+            if ref != first[i]:
+                return rec.fail(case, "%s: call %r in a sequence of %d calls differs from the same call as the only call of a process" % (label, setups[label][1][i], K))
+        rec.ok(case, outcome="revisit:%s" % label, nontrivial=True, calls=4 * K)
+
+    b = dict(setups={k: len(v[1]) for k, v in setups.items()}, orders=["again in order", "in reverse", "interleaved"])
+    b.update(bounds or {})
+    return ctx.lattice(name, sorted(setups), one, bounds=b)
